@@ -6,7 +6,6 @@ From Evm Require Import Registry CorrBase.
 Open Scope Z_scope.
 
 Inductive obs_res := XOk (addr : Z) | XOkAny | XErr | XPanic.
-Inductive mode := Deliver | Check | Simulate | Query.
 
 Inductive skind := SOp (o : op) | SGenesis (g : genesis).
 
@@ -84,7 +83,7 @@ Definition state_agrees (s : state) (x : rstep) : bool :=
   && (mseq s =? r_seq x) && params_eqb (prm s) (r_prm x).
 
 Definition probes_agree (c : rcase) (s : state) (x : rstep) : bool :=
-  forallb (fun q => match q with (_, a, p, o) => pres_eqb (probe_result (rc_hrp c) s a p) o end) (r_probes x).
+  forallb (fun q => match q with (md, a, p, o) => pres_eqb (probe_result (rc_hrp c) md s a p) o end) (r_probes x).
 
 Definition step_model (c : rcase) (s : state) (k : skind) : state * res :=
   match k with
